@@ -2,9 +2,6 @@ import Tahoe.Storage.Expire
 /-! Helper lemmas for C26 (cancel loop of `process_share` under distinct cancel secrets). -/
 namespace Tahoe.Storage.Expire
 
-/-- Cancel secrets of the leases of a share are pairwise distinct. -/
-def DistinctSecrets (ls : List Lease) : Prop := (ls.map (·.cancel)).Nodup
-
 theorem DistinctSecrets.filter {ls : List Lease} (h : DistinctSecrets ls) (f : Lease → Bool) :
     DistinctSecrets (ls.filter f) := by
   unfold DistinctSecrets at *
@@ -78,5 +75,149 @@ theorem cancelAll_distinct (todo : List Lease) :
           = cur.filter (fun l => l.cancel != t.cancel) := List.filter_eq_self.2 (by simp)
       rw [← hfil, h1]; simp
     · rw [hfil]; simp [hts]
+
+/-- `process_bucket` over shares none of which makes `process_share` raise: every share file of the
+    bucket is processed, in order. -/
+theorem processBucketAux_noraise (cfg : Config) (now : Int) (shares : List (ShareType × List Lease)) :
+    ∀ acc, (∀ sh ∈ shares, (processShare cfg now sh.1 sh.2).raised = none) →
+      processBucketAux cfg now shares acc =
+        { shares := acc.reverse ++ shares.map (fun sh => (sh.1, processShare cfg now sh.1 sh.2)), raised := false } := by
+  induction shares with
+  | nil => intro acc _; simp [processBucketAux]
+  | cons sh rest ih =>
+    intro acc h
+    obtain ⟨ty, ls⟩ := sh
+    have h1 : (processShare cfg now ty ls).raised = none := h (ty, ls) List.mem_cons_self
+    simp only [processBucketAux, h1, Option.isSome_none, Bool.false_eq_true, if_false]
+    rw [ih _ (fun s hs => h s (List.mem_cons_of_mem _ hs))]
+    simp
+
+/-! ### tahoe.cfg → configuration -/
+
+theorem configFromSettings_ok (s : Settings) (cfg : Config) (h : configFromSettings s = .ok cfg) :
+    cfg.enabled = s.enabled.getD false ∧ cfg.expImmutable = s.immutable.getD true ∧
+    cfg.expMutable = s.mutable.getD true ∧
+    ((∃ d, s.cutoffDate = some d ∧ cfg.mode = .cutoff d ∧ (s.mode = some "cutoff-date")) ∨
+     (cfg.mode = .age s.overrideDuration ∧ (s.mode = some "age" ∨ (s.mode = none ∧ s.enabled.getD false = false)))) := by
+  unfold configFromSettings at h
+  dsimp only at h
+  split at h
+  · cases h
+  · rename_i m hm
+    have hmode : s.mode = some m ∨ (s.mode = none ∧ m = "age" ∧ s.enabled.getD false = false) := by
+      split at hm
+      · exact Or.inl hm
+      · rename_i hen
+        cases hsm : s.mode with
+        | none => rw [hsm] at hm; simp at hm; exact Or.inr ⟨rfl, hm.symm, by simpa using hen⟩
+        | some x => rw [hsm] at hm; simp at hm; exact Or.inl (by rw [hm])
+    split at h
+    · rename_i hcut
+      split at h
+      · cases h
+      · rename_i d hd
+        cases h
+        refine ⟨rfl, rfl, rfl, Or.inl ⟨d, hd, rfl, ?_⟩⟩
+        rcases hmode with h1 | ⟨_, h2, _⟩
+        · rw [h1, hcut]
+        · rw [hcut] at h2; exact absurd h2 (by decide)
+    · split at h
+      · rename_i hage
+        cases h
+        refine ⟨rfl, rfl, rfl, Or.inr ⟨rfl, ?_⟩⟩
+        rcases hmode with h1 | ⟨h1, _, h3⟩
+        · exact Or.inl (by rw [h1, hage])
+        · exact Or.inr ⟨h1, h3⟩
+      · cases h
+
+/-! ### the documented predicate and the cancel loop together -/
+
+/-- The constants the live source uses are the documented 31 days: the renewal-time hack of
+    `LeaseInfo.get_grant_renew_time_time` and the duration the server grants. -/
+theorem grant_renew_offset_is_31_days :
+    (Tahoe.Generated.Gc.lease_grant_renew_offset : Int) = leaseDuration ∧
+    (Tahoe.Generated.Gc.server_lease_duration : Int) = leaseDuration := by
+  decide
+
+/-- The (repaired) mode test of `process_share` is the documented predicate. -/
+theorem modeExpired_iff_doc (cfg : Config) (now : Int) (l : Lease) :
+    modeExpired cfg now l = true ↔ DocExpired cfg now l := by
+  have h := grant_renew_offset_is_31_days.1
+  unfold modeExpired DocExpired age renewTime lastRenewal grantRenewOffset
+  rw [h]
+  cases cfg.mode with
+  | age ov => cases ov <;> simp <;> omega
+  | cutoff d => simp
+
+/-- With expiration enabled, on a share that has at least one lease and whose leases carry
+    pairwise distinct cancel secrets: the crawler raises nothing, cancels exactly the leases that
+    are expired under the DOCUMENTED predicate (and only when the share type is enabled), and
+    removes the share file iff its type is enabled and every lease is expired. -/
+theorem processShare_wellformed (cfg : Config) (now : Int) (ty : ShareType) (leases : List Lease)
+    (hon : cfg.enabled = true) (hne : leases ≠ []) (hds : DistinctSecrets leases) :
+    let r := processShare cfg now ty leases
+    r.raised = none ∧
+    r.share.leases = leases.filter (fun l => !(typeEnabled cfg ty && decide (DocExpired cfg now l))) ∧
+    (r.removed = true ↔ typeEnabled cfg ty = true ∧ ∀ l ∈ leases, DocExpired cfg now l) := by
+  have hexp : ∀ l, expired cfg now ty l = (typeEnabled cfg ty && decide (DocExpired cfg now l)) := by
+    intro l
+    unfold expired
+    cases hte : typeEnabled cfg ty
+    · simp
+    · simp only [if_true, Bool.true_and]
+      by_cases hd : DocExpired cfg now l
+      · simp [hd, (modeExpired_iff_doc cfg now l).2 hd]
+      · have : modeExpired cfg now l = false := by
+          cases hm : modeExpired cfg now l
+          · rfl
+          · exact absurd ((modeExpired_iff_doc cfg now l).1 hm) hd
+        simp [hd, this]
+  -- the leases left after the loop are those whose secret is not among the expired ones
+  have hkeep : leases.filter (fun l => !((leases.filter (expired cfg now ty)).map (·.cancel)).contains l.cancel)
+      = leases.filter (fun l => !(expired cfg now ty l)) := by
+    apply List.filter_congr
+    intro l hl
+    congr 1
+    cases he : expired cfg now ty l
+    · apply Bool.eq_false_iff.2
+      intro hc
+      simp only [List.contains_eq_mem, List.mem_map, List.mem_filter, decide_eq_true_eq] at hc
+      obtain ⟨m, ⟨hm, hme⟩, hmc⟩ := hc
+      have := hds.inj hm hl hmc
+      subst this
+      rw [he] at hme; cases hme
+    · simp only [List.contains_eq_mem, List.mem_map, List.mem_filter, decide_eq_true_eq]
+      exact ⟨l, ⟨hl, he⟩, rfl⟩
+  have hca := cancelAll_distinct (leases.filter (expired cfg now ty)) true leases (fun _ => rfl)
+    (fun l hl => (List.mem_filter.1 hl).1) (hds.filter _)
+  rw [hkeep] at hca
+  have hfun : (fun l => !(expired cfg now ty l)) = (fun l => !(typeEnabled cfg ty && decide (DocExpired cfg now l))) := by
+    funext l; rw [hexp]
+  simp only [processShare, hon, if_true, hca, ShareResult.removed]
+  refine ⟨trivial, by rw [hfun], ?_⟩
+  by_cases hnone : leases.filter (expired cfg now ty) = []
+  · -- nothing expired: file stays; and not every lease is expired since there is one
+    simp only [hnone, if_true, Bool.not_true, Bool.false_eq_true, false_iff, not_and]
+    intro hte hall
+    obtain ⟨l, hl⟩ := List.exists_mem_of_ne_nil leases hne
+    have : l ∈ leases.filter (expired cfg now ty) := by
+      rw [List.mem_filter, hexp, hte]; simp [hl, hall l hl]
+    rw [hnone] at this; cases this
+  · simp only [hnone, if_false, Bool.not_not, List.isEmpty_iff]
+    rw [List.filter_eq_nil_iff]
+    constructor
+    · intro h
+      have hte : typeEnabled cfg ty = true := by
+        obtain ⟨l, hl⟩ := List.exists_mem_of_ne_nil _ hnone
+        have := (List.mem_filter.1 hl).2
+        rw [hexp] at this
+        exact (Bool.and_eq_true_iff.1 this).1
+      refine ⟨hte, ?_⟩
+      intro l hl
+      have := h l hl
+      rw [hexp, hte] at this
+      simpa using this
+    · intro ⟨hte, hall⟩ l hl
+      rw [hexp, hte]; simp [hall l hl]
 
 end Tahoe.Storage.Expire
